@@ -107,6 +107,19 @@ CLAIMED = {
              "regprobe.py), Python dict ordering. Known finding: the --write-helpers debug dump accumulates.",
         technique="Coq abstract theorem + regenerated source-scan tables (vm_compute) + whole-run relation oracle",
         design="4/C07"),
+    "C15": dict(
+        text="Coq theorems over the wrap-flag algebra (WrapFlags / PromoteWrap / emitter sequencing): a container's flag is the OR "
+             "over its subtree, a language off everywhere writes no wrapper file, on somewhere writes them, Python/Lua flags never "
+             "influence the C/Fortran emission decision; table theorems by vm_compute over the write_output_file() call-site table "
+             "regenerated from /repo's source on every run: every site uses the directory option of its kind, every C/C++ site "
+             "registers exactly os.path.join(dir, file) in cfiles, every Fortran site in ffiles, nobody else does. Search/validation: "
+             "whole-run relations on the implementation: the 12 admissible library-level flag combinations, --cfiles/--ffiles "
+             "contents vs files on disk, byte equality of C/Fortran files across Python/Lua toggles, separate output directories, "
+             "per-declaration overrides on plain/defaulted/string/overloaded/templated/generic functions.",
+        note="Trusted: Coq kernel, the ast scan, harness. The wrap.assign/clear sites of generate.py are not modelled in Coq; they are "
+             "covered by the per-declaration override relation (which found and led to fixing has_default_args).",
+        technique="Coq proof (flag algebra) + regenerated source-scan table (vm_compute) + whole-run relation oracle",
+        design="4/C15"),
 }
 
 PENDING = {}
